@@ -12,7 +12,7 @@ RULE = ("normalize_piece_length on every integer -2048..2^21 (quick: ..2^18), ev
         "2^80 (monotonicity on sorted sample); distinct by value; non-trivial when within 2 of "
         "a power of two or > 2^14 and not a power of two, or a string")
 
-STRINGS = ["", " ", "14", "25", "26", "13", "16384", "16385", "015", "0", "00016384", "+15",
+STRINGS = ["9" * 400, "1" + "0" * 320, "7" * 4300, "", " ", "14", "25", "26", "13", "16384", "16385", "015", "0", "00016384", "+15",
            "-15", "1_6", " 15", "15 ", "15\n", "²", "٣٢", "1e5", "0x4000", "16.0", "abc",
            "１６", "16384.0", "2**14", "\t", "32768", "1048576", "33554432", "67108864",
            "9" * 30, "1" * 4301, "0" * 4400 + "16384", "１５", "৪"]
@@ -66,6 +66,7 @@ def run(tier, seed, replay=None):
             values += [2 ** k + d for d in (-2, -1, 0, 1, 2)]
         values += [rng.randrange(2 ** 14, 2 ** 64) for _ in range(20000 if tier == "quick" else 400000)]
         values += [2 ** rng.randrange(14, 200) for _ in range(200)]
+        values += [2 ** 1024, 2 ** 1024 + 1, 2 ** 1100 - 1, 10 ** 400, 10 ** 400 + 7, -(10 ** 400), 2 ** 5000]
     sample_for_model = set()
     for n in values:
         got = norm(n)
@@ -126,6 +127,28 @@ def run(tier, seed, replay=None):
                     if got != exp:
                         run.fail("impl-vs-spec", {"value": v, "route": route},
                                  {"impl": got, "spec": exp})
+    # an empty payload does not excuse a bad piece length, nor change a good one
+    if not replay or replay["case"].get("route") == "empty-payload":
+        with sandbox("c12e") as box:
+            root = os.path.join(box, "p")
+            write_tree(root, [("empty", b""), ("d/also-empty", b"")])
+            single = os.path.join(box, "lonely")
+            write_tree(box, [("lonely", b"")])
+            for content in (root, single):
+                for v in (12345, 13, 16384 + 1, 15, 65536, "abc", "18"):
+                    for route in ("kw", "cli"):
+                        if route == "cli" and not isinstance(v, str):
+                            v2 = str(v)
+                        else:
+                            v2 = v
+                        got = _route(route if isinstance(v2, (int,)) or route == "cli" else "kw", v2, content, box, PLE)
+                        want = spec_accepts(v2) if isinstance(v2, int) else spec_str(v2)
+                        exp = ("ok", want) if want is not None else ("ple", None)
+                        run.case(f"empty:{route}:{v2}", True, classes=["empty-payload"])
+                        if got != exp:
+                            run.fail("impl-vs-spec", {"value": v2, "route": "empty-payload",
+                                                      "content": os.path.basename(content)},
+                                     {"impl": got, "spec": exp})
     # strings through the command line and the configuration file
     if not replay or replay["case"].get("route") in ("cli-str", "config-str"):
         svals = ["+15", "1_5", "1_6_3_8_4", "١٥", " 15", "15 ", "0x10", "15.0", "²", "-15", "015",
